@@ -198,6 +198,7 @@ func runC03(c *kit.Ctx) {
 
 	// ---- R2 ---------------------------------------------------------------
 	c.StartRule("R2", "whoever removes a call from the sent table completes it on every path", 3)
+	clearedCallSlotsAreSkipped(c)
 	handback := map[*ssa.Function]bool{trySend: true}
 	for _, s := range callersOf(p, unregName) {
 		fn := s.Parent()
@@ -484,6 +485,8 @@ func runC03(c *kit.Ctx) {
 
 	// ---- R6 ---------------------------------------------------------------
 	c.StartRule("R6", "reader errors are connection failures", 6)
+	everyWriteErrorIsReported(c)
+	readerEndsOnlyWhenTheConnectionFailed(c)
 	readerErrorsAreFatal(c, recv)
 	decodeErrorsKeepTheConnection(c)
 	// direct completions in receive (outside the deferred one) happen on connection failures:
